@@ -3,7 +3,7 @@ from props import COMMON_TRUSTED
 SPEC = {
     "translators": ["tr_reader.py", "tr_container.py"],
     "harness": "c01",
-    "cases": {"quick": 40000, "thorough": 1500000},
+    "cases": {"quick": 100000, "thorough": 1500000},
     "profiles": {"quick": ["debug", "release"], "thorough": ["debug", "release"]},
     "gen_timeout": 2400,
     "search_factor": 2,
@@ -16,7 +16,7 @@ SPEC = {
     ],
     "assumptions": [
         "a crash = panic (any thread-unwinding panic inside a public entry point), abort (allocation failure under the "
-        "address-space limit, stack overflow, any signal) or an entry running longer than 4 s + size/100 ms",
+        "address-space limit, stack overflow, any signal) or an entry running longer than 4 s + size/100 ms of CPU time (1.5 s + size/50 ms for a synthetic component input)",
         "known findings are identified by (source file, enclosing function, panic kind), robust to line shifts",
     ],
     "rule": "each case = fixture font + seeded structured mutation (1-12 edits: u16/u32 field overwrite with boundary "
